@@ -60,6 +60,7 @@ type message struct {
 	heads   []int  // interned, sorted
 	changes []int  // interned, sorted
 	held    int    // >0: delayed for that many more scheduler steps
+	depth   int    // length of the causal chain of deliveries that produced it (reset when an exchange starts)
 
 	rawHeads, rawChanges []string // real ids, interned by resolveEmitted once the step is over
 }
@@ -204,20 +205,24 @@ type world struct {
 	nextM  int
 	seqNo  int // payload counter (unique data per local change)
 
-	emitted    []*message // messages produced by the current step
-	actor      int        // replica whose code runs in the current step
-	ops        []string   // op lines sent to the model so far (replay trace)
-	batch      int        // response batch size in bytes (0 = production default)
-	nomodel    bool
-	abort      bool                     // schedule not meaningful (pruned by the enumerator)
-	idWanted   func(realId string) bool // next local add: pick a payload whose change id satisfies this
-	faultFired bool                     // the fault family: the injected fault was reached
-	deep       bool                     // rebuild the acting replica from storage after every step (guard-directed scenarios)
-	stepNo     int
-	phase      [][2]int // if set: the anti-entropy phase is exactly these exchanges, in this order
-	failed     bool     // a property violation was recorded (or the schedule cannot go on)
-	disagreed  bool     // the model was left behind in this schedule
-	errs       map[string]int
+	emitted      []*message // messages produced by the current step
+	actor        int        // replica whose code runs in the current step
+	ops          []string   // op lines sent to the model so far (replay trace)
+	batch        int        // response batch size in bytes (0 = production default)
+	nomodel      bool
+	abort        bool                     // schedule not meaningful (pruned by the enumerator)
+	idWanted     func(realId string) bool // next local add: pick a payload whose change id satisfies this
+	ghostSeen    bool
+	curDepth     int // causal depth of the message being delivered (0 outside deliveries)
+	maxDepthSeen int
+	unjudged     bool // an exchange hit the absolute safety cap: the phase did not complete, do not judge
+	faultFired   bool // the fault family: the injected fault was reached
+	deep         bool // rebuild the acting replica from storage after every step (guard-directed scenarios)
+	stepNo       int
+	phase        [][2]int // if set: the anti-entropy phase is exactly these exchanges, in this order
+	failed       bool     // a property violation was recorded (or the schedule cannot go on)
+	disagreed    bool     // the model was left behind in this schedule
+	errs         map[string]int
 }
 
 func peerName(i int) string { return fmt.Sprintf("peer%d", i) }
@@ -288,13 +293,21 @@ func (w *world) emitRequest(from int, req syncdeps.Request) error {
 	return nil
 }
 
-func (w *world) intern(ids []string) []int {
+func (w *world) intern(ids []string) []int { return w.internAs(ids, "a message") }
+
+// internAs maps real change ids to the interned ones. An id no replica ever created successfully
+// (every successful AddContent is interned) is a change somebody holds or advertises without it
+// being stored anywhere — e.g. the remains of a failed local add: a violation, not a harness error.
+func (w *world) internAs(ids []string, where string) []int {
 	out := make([]int, 0, len(ids))
 	for _, id := range ids {
 		v, ok := w.ids[id]
 		if !ok {
-			// an id nobody created: cannot happen with honest replicas
-			w.r.Fatal("message cites unknown change id " + id)
+			if !w.ghostSeen {
+				w.ghostSeen = true
+				w.violate("sync.ghost", fmt.Sprintf("%s cites change %s, which no replica ever stored (no successful AddContent created it)", where, id))
+			}
+			continue
 		}
 		out = append(out, v)
 	}
@@ -316,7 +329,7 @@ func (w *world) emit(k kind, from, to int, payload []byte) {
 	if err := tm.UnmarshalVT(cp); err != nil {
 		w.r.Fatal("emitted message does not parse: " + err.Error())
 	}
-	m := &message{mid: w.nextM, k: k, from: from, to: to, payload: cp}
+	m := &message{mid: w.nextM, k: k, from: from, to: to, payload: cp, depth: w.curDepth + 1}
 	w.nextM++
 	switch k {
 	case kHU:
@@ -436,7 +449,7 @@ func (w *world) observe(i int) (o obs, err error) {
 	}
 	sort.Ints(o.stored)
 	rep.tree.Lock()
-	o.heads = w.intern(rep.tree.Heads())
+	o.heads = w.internAs(rep.tree.Heads(), fmt.Sprintf("the in-memory heads of replica %d", i))
 	o.root = -1
 	if rc := rep.tree.Root(); rc != nil {
 		if id, ok := w.ids[rc.Id]; ok {
@@ -448,7 +461,7 @@ func (w *world) observe(i int) (o obs, err error) {
 	if err != nil {
 		return
 	}
-	o.entry = w.intern(e.Heads)
+	o.entry = w.internAs(e.Heads, fmt.Sprintf("the durable heads entry of replica %d", i))
 	return
 }
 
@@ -458,7 +471,7 @@ func (w *world) reopenHeads(i int) ([]int, error) {
 	if err != nil {
 		return nil, err
 	}
-	return w.intern(t.Heads()), nil
+	return w.internAs(t.Heads(), fmt.Sprintf("the tree replica %d rebuilds from its storage", i)), nil
 }
 
 // maximal returns the maximal elements (no stored child) of a stored set, by the creators' parent lists.
@@ -653,6 +666,10 @@ func (w *world) localAdd(i int, snapshot bool) (id int, err error) {
 	w.ids[sc.Id] = id
 	info := &changeInfo{id: id, real: sc.Id, isSnap: snapshot, snap: -1}
 	for _, p := range sc.PrevIds {
+		if _, ok := w.ids[p]; !ok {
+			w.internAs([]string{p}, fmt.Sprintf("a new local change of replica %d, as its parent,", i))
+			continue
+		}
 		info.parents = append(info.parents, w.ids[p])
 	}
 	sort.Ints(info.parents)
